@@ -936,7 +936,9 @@ class R:
     def __abs__(self):
         if self.concrete:
             return R(abs(self.n))
-        return ite(self >= 0, self, -self)
+        r = ite(self >= 0, self, -self)
+        r.sq = self * self              # |x|**2 is x*x, syntactically (keeps transcendental arguments in one normal form)
+        return r
 
     def __pow__(self, o):
         from . import tf
